@@ -216,31 +216,49 @@ func (w *c20Walker) walkStruct(sv reflect.Value) {
 	// a field of non-node interface type may only alias one of the node-valued fields; a node it holds that is
 	// NOT one of them is serialised as an extra child under the field's name, so that the specification counts what
 	// it references (the model does not know such a child: the case then fails the correspondence as well)
-	var hidden []c20Field
+	type hiddenNode struct {
+		name string
+		val  reflect.Value
+	}
+	var hidden []hiddenNode
+	isAliased := func(dyn reflect.Value) bool {
+		p := c20PtrOf(dyn)
+		for _, cp := range childPtrs {
+			if p != 0 && cp == p {
+				return true
+			}
+		}
+		return false
+	}
 	for _, f := range fields {
 		if f.class != c20Opaque {
 			continue
 		}
 		fv := sv.FieldByIndex(f.index)
-		if fv.Kind() != reflect.Interface || fv.IsNil() {
-			if fv.Kind() != reflect.Interface && (fv.Kind() == reflect.Slice || fv.Kind() == reflect.Map || fv.Kind() == reflect.Array) && fv.Len() > 0 {
+		switch fv.Kind() {
+		case reflect.Interface:
+			if fv.IsNil() {
+				continue
+			}
+			if dyn := fv.Elem(); dyn.Type().Implements(c20NodeIface) && !isAliased(dyn) {
+				hidden = append(hidden, hiddenNode{f.name, fv})
+			}
+		case reflect.Slice, reflect.Array:
+			// e.g. a []SortField (not a node interface) whose elements are nodes all the same
+			for i := 0; i < fv.Len(); i++ {
+				el := fv.Index(i)
+				if el.Kind() == reflect.Interface && !el.IsNil() && el.Elem().Type().Implements(c20NodeIface) {
+					if !isAliased(el.Elem()) {
+						hidden = append(hidden, hiddenNode{f.name, el})
+					}
+				} else if el.Kind() != reflect.Interface || !el.IsNil() {
+					w.err = "hidden-node " + t.Name() + "." + f.name
+				}
+			}
+		default:
+			if (fv.Kind() == reflect.Map || fv.Kind() == reflect.Chan) && fv.Len() > 0 {
 				w.err = "hidden-node " + t.Name() + "." + f.name
 			}
-			continue
-		}
-		dyn := fv.Elem()
-		if !dyn.Type().Implements(c20NodeIface) {
-			continue
-		}
-		p := c20PtrOf(dyn)
-		aliased := false
-		for _, cp := range childPtrs {
-			if p != 0 && cp == p {
-				aliased = true
-			}
-		}
-		if !aliased {
-			hidden = append(hidden, f)
 		}
 	}
 	w.emit("N", t.Name(), strconv.Itoa(nstr))
@@ -268,9 +286,9 @@ func (w *c20Walker) walkStruct(sv reflect.Value) {
 			}
 		}
 	}
-	for _, f := range hidden {
-		w.emit(f.name)
-		w.walk(sv.FieldByIndex(f.index))
+	for _, h := range hidden {
+		w.emit(h.name)
+		w.walk(h.val)
 	}
 }
 
